@@ -666,7 +666,16 @@ pub trait DnsRecordExt: fmt::Debug {
     /// Returns true if another record has matched content,
     /// and if its TTL is at least half of this record's.
     fn suppressed_by_answer(&self, other: &dyn DnsRecordExt) -> bool {
-        self.matches(other) && (other.get_record().ttl > self.get_record().ttl / 2)
+        // The cache-flush bit is not part of a record's identity here: known answers are
+        // listed without it (RFC 6762 section 10.2) while our unique records carry it.
+        let same_record = if other.get_cache_flush() == self.get_cache_flush() {
+            self.matches(other)
+        } else {
+            let mut other = other.clone_box();
+            other.get_record_mut().entry.cache_flush = self.get_cache_flush();
+            self.matches(other.as_ref())
+        };
+        same_record && (other.get_record().ttl > self.get_record().ttl / 2)
     }
 
     /// Required by RFC 6762 Section 7.1: Known-Answer Suppression.
